@@ -119,10 +119,14 @@ def _decorator_opaque(deco: Scope) -> 'Optional[str]':
     import ast
     from ..load import own_nodes
     params = [p for p in deco.params]
+    inner = [c for c in deco.children if c.kind == 'function']
+    # a decorator factory (`@_traced('label')`): the function it returns is the decorator
+    if len(inner) == 1 and len([c for c in inner[0].children if c.kind == 'function']) == 1 and len(inner[0].params) == 1 and any(
+            isinstance(x, ast.Return) and isinstance(x.value, ast.Name) and x.value.id == inner[0].name for x in own_nodes(deco.node)):
+        return _decorator_opaque(inner[0])
     if len(params) != 1:
         return 'takes more than the function'
     fp = params[0]
-    inner = [c for c in deco.children if c.kind == 'function']
     rets = [x for x in own_nodes(deco.node) if isinstance(x, ast.Return) and x.value is not None]
     if any(isinstance(r.value, ast.Name) and r.value.id == fp for r in rets) and not inner:
         return None         # returns the function itself (a registering / marking decorator)
@@ -130,9 +134,10 @@ def _decorator_opaque(deco: Scope) -> 'Optional[str]':
         return 'no single wrapper function'
     w = inner[0]
     a = w.node.args
-    if not (a.vararg and a.kwarg) or a.args or a.kwonlyargs or a.posonlyargs:
+    if not (a.vararg and a.kwarg) or a.kwonlyargs or a.defaults:
         return 'the wrapper does not take (*args, **kwargs)'
     va, kw = a.vararg.arg, a.kwarg.arg
+    lead = [x.arg for x in a.posonlyargs + a.args]          # `self` of a decorated method, handed on in place
     for r in rets:
         names = {x.id for x in ast.walk(r.value) if isinstance(x, ast.Name)}
         if w.name not in names and not (isinstance(r.value, ast.Name) and r.value.id == fp):
@@ -141,8 +146,9 @@ def _decorator_opaque(deco: Scope) -> 'Optional[str]':
     def is_fwd(v) -> bool:
         if isinstance(v, ast.Await):
             v = v.value
-        return isinstance(v, ast.Call) and isinstance(v.func, ast.Name) and v.func.id == fp and len(v.args) == 1 and isinstance(v.args[0], ast.Starred) \
-            and isinstance(v.args[0].value, ast.Name) and v.args[0].value.id == va and len(v.keywords) == 1 and v.keywords[0].arg is None \
+        return isinstance(v, ast.Call) and isinstance(v.func, ast.Name) and v.func.id == fp and len(v.args) == len(lead) + 1 \
+            and [x.id if isinstance(x, ast.Name) else None for x in v.args[:len(lead)]] == lead and isinstance(v.args[-1], ast.Starred) \
+            and isinstance(v.args[-1].value, ast.Name) and v.args[-1].value.id == va and len(v.keywords) == 1 and v.keywords[0].arg is None \
             and isinstance(v.keywords[0].value, ast.Name) and v.keywords[0].value.id == kw
     wrets = [x for x in own_nodes(w.node) if isinstance(x, ast.Return)]
     if not wrets or not all(x.value is not None and is_fwd(x.value) for x in wrets):
@@ -150,7 +156,7 @@ def _decorator_opaque(deco: Scope) -> 'Optional[str]':
     calls = [x for x in ast.walk(w.node) if isinstance(x, ast.Call) and isinstance(x.func, ast.Name) and x.func.id == fp]
     if len(calls) != len(wrets):
         return 'the function is called more than once per path'
-    if any(isinstance(x, ast.Name) and x.id in (va, kw) and isinstance(x.ctx, (ast.Store, ast.Del)) for x in ast.walk(w.node)):
+    if any(isinstance(x, ast.Name) and x.id in [va, kw] + lead and isinstance(x.ctx, (ast.Store, ast.Del)) for x in ast.walk(w.node)):
         return 'the arguments are re-bound in the wrapper'
     if any(isinstance(x, ast.Attribute) and isinstance(x.value, ast.Name) and x.value.id == kw and x.attr in ('pop', 'update', 'setdefault', 'clear', 'popitem')
            for x in ast.walk(w.node)) or any(isinstance(x, (ast.Subscript,)) and isinstance(x.ctx, (ast.Store, ast.Del)) and isinstance(x.value, ast.Name) and x.value.id == kw
